@@ -262,9 +262,13 @@ impl<K: CacheKey + 'static> MemoryCache<K> {
         candidates.sort_by_key(|(_, last_accessed)| *last_accessed);
 
         let to_evict = candidates.into_iter().take(count);
+        #[cfg(feature = "verif-hooks")]
+        crate::verif_hooks::sched_point("mem.evict.after_snapshot");
 
         for (key, _) in to_evict {
             if let Some((_, entry)) = self.storage.remove(&key) {
+                #[cfg(feature = "verif-hooks")]
+                crate::verif_hooks::sched_point("mem.evict.after_remove_one");
                 self.entry_count.fetch_sub(1, Ordering::Relaxed);
                 self.memory_usage
                     .fetch_sub(entry.size_bytes as u64, Ordering::Relaxed);
@@ -285,9 +289,13 @@ impl<K: CacheKey + 'static> MemoryCache<K> {
         candidates.sort_by_key(|(_, access_count)| *access_count);
 
         let to_evict = candidates.into_iter().take(count);
+        #[cfg(feature = "verif-hooks")]
+        crate::verif_hooks::sched_point("mem.evict.after_snapshot");
 
         for (key, _) in to_evict {
             if let Some((_, entry)) = self.storage.remove(&key) {
+                #[cfg(feature = "verif-hooks")]
+                crate::verif_hooks::sched_point("mem.evict.after_remove_one");
                 self.entry_count.fetch_sub(1, Ordering::Relaxed);
                 self.memory_usage
                     .fetch_sub(entry.size_bytes as u64, Ordering::Relaxed);
@@ -308,9 +316,13 @@ impl<K: CacheKey + 'static> MemoryCache<K> {
         candidates.sort_by_key(|(_, created_at)| *created_at);
 
         let to_evict = candidates.into_iter().take(count);
+        #[cfg(feature = "verif-hooks")]
+        crate::verif_hooks::sched_point("mem.evict.after_snapshot");
 
         for (key, _) in to_evict {
             if let Some((_, entry)) = self.storage.remove(&key) {
+                #[cfg(feature = "verif-hooks")]
+                crate::verif_hooks::sched_point("mem.evict.after_remove_one");
                 self.entry_count.fetch_sub(1, Ordering::Relaxed);
                 self.memory_usage
                     .fetch_sub(entry.size_bytes as u64, Ordering::Relaxed);
@@ -331,9 +343,13 @@ impl<K: CacheKey + 'static> MemoryCache<K> {
         keys.shuffle(&mut rng());
 
         let to_evict = keys.into_iter().take(count);
+        #[cfg(feature = "verif-hooks")]
+        crate::verif_hooks::sched_point("mem.evict.after_snapshot");
 
         for key in to_evict {
             if let Some((_, entry)) = self.storage.remove(&key) {
+                #[cfg(feature = "verif-hooks")]
+                crate::verif_hooks::sched_point("mem.evict.after_remove_one");
                 self.entry_count.fetch_sub(1, Ordering::Relaxed);
                 self.memory_usage
                     .fetch_sub(entry.size_bytes as u64, Ordering::Relaxed);
@@ -355,9 +371,13 @@ impl<K: CacheKey + 'static> MemoryCache<K> {
                 }
             })
             .collect();
+        #[cfg(feature = "verif-hooks")]
+        crate::verif_hooks::sched_point("mem.evict.after_snapshot");
 
         for key in expired_keys {
             if let Some((_, entry)) = self.storage.remove(&key) {
+                #[cfg(feature = "verif-hooks")]
+                crate::verif_hooks::sched_point("mem.evict.after_remove_one");
                 self.entry_count.fetch_sub(1, Ordering::Relaxed);
                 self.memory_usage
                     .fetch_sub(entry.size_bytes as u64, Ordering::Relaxed);
@@ -405,9 +425,13 @@ impl<K: CacheKey + 'static> AsyncCache<K> for MemoryCache<K> {
                 // Need to collect info and drop the guard before removing
                 let size_bytes = entry.size_bytes;
                 drop(entry); // Drop the guard before attempting to remove
+                #[cfg(feature = "verif-hooks")]
+                crate::verif_hooks::sched_point("mem.get.expired.after_drop_guard");
 
                 // Remove expired entry
                 if self.storage.remove(key).is_some() {
+                    #[cfg(feature = "verif-hooks")]
+                    crate::verif_hooks::sched_point("mem.get.expired.after_remove");
                     self.entry_count.fetch_sub(1, Ordering::Relaxed);
                     self.memory_usage
                         .fetch_sub(size_bytes as u64, Ordering::Relaxed);
@@ -452,14 +476,20 @@ impl<K: CacheKey + 'static> AsyncCache<K> for MemoryCache<K> {
 
         // Check capacity and evict if necessary
         if self.needs_eviction() {
+            #[cfg(feature = "verif-hooks")]
+            crate::verif_hooks::sched_point("mem.put.after_needs_eviction");
             self.perform_eviction();
         }
         self.make_room_for(size_bytes);
+        #[cfg(feature = "verif-hooks")]
+        crate::verif_hooks::sched_point("mem.put.after_eviction");
 
         let entry = Arc::new(MemoryCacheEntryInner::new(value, size_bytes, Some(ttl)));
 
         // Insert or update entry
         if let Some(old_entry) = self.storage.insert(key, entry) {
+            #[cfg(feature = "verif-hooks")]
+            crate::verif_hooks::sched_point("mem.put.after_insert");
             // Updating existing entry - adjust memory usage
             let old_size = old_entry.size_bytes as u64;
             let new_size = size_bytes as u64;
@@ -472,6 +502,8 @@ impl<K: CacheKey + 'static> AsyncCache<K> for MemoryCache<K> {
                     .fetch_sub(old_size - new_size, Ordering::Relaxed);
             }
         } else {
+            #[cfg(feature = "verif-hooks")]
+            crate::verif_hooks::sched_point("mem.put.after_insert");
             // New entry
             self.entry_count.fetch_add(1, Ordering::Relaxed);
             self.memory_usage
@@ -488,9 +520,13 @@ impl<K: CacheKey + 'static> AsyncCache<K> for MemoryCache<K> {
                 // Need to collect info and drop the guard before removing
                 let size_bytes = entry.size_bytes;
                 drop(entry); // Drop the guard before attempting to remove
+                #[cfg(feature = "verif-hooks")]
+                crate::verif_hooks::sched_point("mem.contains.expired.after_drop_guard");
 
                 // Clean up expired entry
                 if self.storage.remove(key).is_some() {
+                    #[cfg(feature = "verif-hooks")]
+                    crate::verif_hooks::sched_point("mem.contains.expired.after_remove");
                     self.entry_count.fetch_sub(1, Ordering::Relaxed);
                     self.memory_usage
                         .fetch_sub(size_bytes as u64, Ordering::Relaxed);
@@ -506,6 +542,8 @@ impl<K: CacheKey + 'static> AsyncCache<K> for MemoryCache<K> {
 
     async fn remove(&self, key: &K) -> CacheResult<bool> {
         if let Some((_, entry)) = self.storage.remove(key) {
+            #[cfg(feature = "verif-hooks")]
+            crate::verif_hooks::sched_point("mem.remove.after_remove");
             self.entry_count.fetch_sub(1, Ordering::Relaxed);
             self.memory_usage
                 .fetch_sub(entry.size_bytes as u64, Ordering::Relaxed);
@@ -517,6 +555,8 @@ impl<K: CacheKey + 'static> AsyncCache<K> for MemoryCache<K> {
 
     async fn clear(&self) -> CacheResult<()> {
         self.storage.clear();
+        #[cfg(feature = "verif-hooks")]
+        crate::verif_hooks::sched_point("mem.clear.after_clear");
         self.entry_count.store(0, Ordering::Relaxed);
         self.memory_usage.store(0, Ordering::Relaxed);
         self.metrics.reset();
